@@ -695,15 +695,14 @@ impl<'w, Q: Query> QueryBorrow<'w, Q> {
     }
 
     /// Helper to change the type of the query
-    fn transform<R: Query>(mut self) -> QueryBorrow<'w, R> {
-        let x = QueryBorrow {
+    fn transform<R: Query>(self) -> QueryBorrow<'w, R> {
+        // `R` may match fewer archetypes than `Q`, so borrows already taken for `Q` cannot be
+        // handed over: dropping `self` releases them, and the new query borrows afresh when used.
+        QueryBorrow {
             world: self.world,
-            borrowed: self.borrowed,
+            borrowed: false,
             _marker: PhantomData,
-        };
-        // Ensure `Drop` won't fire redundantly
-        self.borrowed = false;
-        x
+        }
     }
 }
 
